@@ -194,12 +194,16 @@ func termResolved(a *An, p *Path, v ssa.Value) string {
 		if d > 6 {
 			return
 		}
-		if phi, ok := v.(*ssa.Phi); ok {
-			r := p.Resolve(phi)
-			if r != ssa.Value(phi) {
-				repl[a.C.Term(phi)] = a.C.Term(r)
+		switch v.(type) {
+		case *ssa.Phi, *ssa.Extract, *ssa.Call:
+			// a phi, or a result of a helper walked inline on this path
+			if r := p.Resolve(v); r != v {
+				repl[a.C.Term(v)] = a.C.Term(r)
+				return
 			}
-			return
+			if _, isPhi := v.(*ssa.Phi); isPhi {
+				return
+			}
 		}
 		if in, ok := v.(ssa.Instruction); ok {
 			for _, op := range in.Operands(nil) {
@@ -527,6 +531,29 @@ func (a *An) cipherBuffers(rule string) {
 		args := cs.Common().Args
 		check(cs, args[2], args[3], 0)
 	}
+	// the primitive itself: one application of the key stream to the whole of (dst, src), on every path that succeeds
+	var xs []ssa.CallInstruction
+	for _, b := range prim.Blocks {
+		for _, in := range b.Instrs {
+			if call, ok := in.(ssa.CallInstruction); ok && call.Common().IsInvoke() && call.Common().Method.Name() == "XORKeyStream" {
+				xs = append(xs, call)
+			}
+		}
+	}
+	whole := len(xs) == 1
+	if whole {
+		args := xs[0].Common().Args
+		pd, okd := args[0].(*ssa.Parameter)
+		ps, oks := args[1].(*ssa.Parameter)
+		whole = okd && oks && paramIndex(pd) == 3 && paramIndex(ps) == 2
+		for _, r := range a.returnsOf(prim) {
+			if isNilConst(resolveLocal(r.Results[0])) && !instrDominates(xs[0], r) {
+				whole = false
+			}
+		}
+	}
+	R.Check(whole, rule, "counterEncipher|whole", "the key stream is applied once, to the whole source into the whole destination, before every successful return", a.C.Pos(prim.Pos()),
+		fmt.Sprintf("%d applications, or on parts / not on every path: bytes the stream is not applied to stay as they are — plaintext on the wire when the buffers are shared", len(xs)))
 	R.Check(n >= 4, rule, "sites", "cipher applications found", "", fmt.Sprintf("%d", n))
 }
 
